@@ -686,6 +686,26 @@ func (t *Tr) loopEnv(li *loopInfo, phiVals map[*ssa.Phi]Term, at *ssa.BasicBlock
 			}
 		}
 	}
+	// `for ... := range xs` over a slice: `rangeover` names xs (it is evaluated once,
+	// before the loop, and often has no name in the source)
+	for _, in := range li.header.Instrs {
+		phi, ok := in.(*ssa.Phi)
+		if !ok || phi.Comment != "rangeindex" {
+			continue
+		}
+		if n := rangeLen(phi); n != nil {
+			if call, ok := n.(*ssa.Call); ok {
+				if b, ok := call.Call.Value.(*ssa.Builtin); ok && b.Name() == "len" && len(call.Call.Args) == 1 {
+					x := call.Call.Args[0]
+					if _, isSlice := x.Type().Underlying().(*types.Slice); isSlice {
+						if xv, ok := t.vals[x]; ok {
+							env.vars["rangeover"] = Val{T: xv, Ty: x.Type()}
+						}
+					}
+				}
+			}
+		}
+	}
 	// `for i := range xs`: the key variable is the hidden index + 1, computed in the header
 	for _, in := range li.header.Instrs {
 		bo, ok := in.(*ssa.BinOp)
